@@ -450,11 +450,17 @@ def gen_simple(rng, H):
         lines.append(m.text(rng))
         H["simple:macros"] += 1
 
+    names_in_args = bool(objs) and rng.random() < 0.5
+    if names_in_args:
+        H["simple:units with macro names in arguments"] += 1
+
     def arg(depth=0):
         out = []
         for _ in range(rng.choice([1, 1, 2, 3, 5])):
             r = rng.random()
-            if r < 0.35:
+            if names_in_args and r < 0.25:
+                out.append(rng.choice(objs))
+            elif r < 0.35:
                 out.append(rng.choice(PLAIN + PARAMS))
             elif r < 0.6:
                 out.append(rng.choice(NUMS))
@@ -954,6 +960,20 @@ def defs_balanced(text):
     return True
 
 
+def nofail_violation(X, replay):
+    """a disagreement between code and model on which the code still agrees with the reference (or the result
+    is unspecified): recorded (at most three per run), and the later streams still run -- a unit on which the
+    code fails outright may only come up there"""
+    X.nofail_seen += 1
+    if X.nofail_recorded < 3 and len(X.ck.violations) < 5:
+        X.ck.violation(replay, nofail=True)
+        X.nofail_recorded += 1
+
+
+def go_on(X):
+    return len(X.ck.violations) == X.nofail_recorded
+
+
 def classify(X, text, r, m, s):
     """the recorded finding a (real = model) != reference disagreement belongs to, or None"""
     ev, fl = m.notes, s.notes
@@ -1090,10 +1110,10 @@ def examine1(X, texts, label, expect=None, asan=None):
             X.ninputs["unspecified-6.10.3.4p4(model vs code only)"] = \
                 X.ninputs.get("unspecified-6.10.3.4p4(model vs code only)", 0) + 1
             if not (same_km(r, m) and same_km(rn, mn)):
-                ck.violation({"kind": "correspondence", "input": t, "input_hex": hx(bs[i]), "set": label,
+                nofail_violation(X, {"kind": "correspondence", "input": t, "input_hex": hx(bs[i]), "set": label,
                               "impl": show(X, r.toks), "model": show(X, m.toks),
                               "what": "pp.c and Model/PP.lean disagree on a unit whose result 6.10.3.4p4 leaves "
-                                      "unspecified", "theorem": "CprocVerif.C12.* are about Model/PP.lean"}, nofail=True)
+                                      "unspecified", "theorem": "CprocVerif.C12.* are about Model/PP.lean"})
             continue
         if len(ck.violations) >= 5:
             continue
@@ -1143,6 +1163,9 @@ def examine1(X, texts, label, expect=None, asan=None):
                       fid=fid)
             continue
         if not km:
+            if X.nofail_recorded >= 3:
+                X.nofail_seen += 1
+                continue
             which = "pp" if not same_km(r, m) else "ppnl"
             rr, mm = (r, m) if which == "pp" else (rn, mn)
             def bad2(c):
@@ -1151,13 +1174,12 @@ def examine1(X, texts, label, expect=None, asan=None):
             small = shrink_text(t, bad2, 200) if rr.crash is None else t
             cb = small.encode("latin-1")
             rr, mm = run_real(X, [cb], which, plain=True)[0], run_drv(X, [cb], which)[0]
-            ck.violation({"kind": "correspondence", "mode": which, "input": small, "input_hex": hx(cb),
+            nofail_violation(X, {"kind": "correspondence", "mode": which, "input": small, "input_hex": hx(cb),
                           "impl": show(X, rr.toks) + (" !" + str(rr.err) if rr.err else "") + (" crash" if rr.crash else ""),
                           "model": show(X, mm.toks) + (" !" + mm.err if mm.err else ""), "set": label,
                           "what": "pp.c and Model/PP.lean disagree (token, space flag or diagnostic class) although the "
                                   "implementation's stream equals the C11 6.10.3 reference",
-                          "theorem": "CprocVerif.C12.* are about Model/PP.lean, which no longer describes pp.c"},
-                         nofail=True)
+                          "theorem": "CprocVerif.C12.* are about Model/PP.lean, which no longer describes pp.c"})
     return R, M, S
 
 
@@ -1377,6 +1399,7 @@ def run(ck):
     X = Ctx()
     X.ck = ck
     X.ninputs, X.errs, X.events, X.known, X.kinds_seen, X.outlen, X.secs, X.tclass = {}, {}, {}, {}, {}, {}, {}, {}
+    X.nofail_seen, X.nofail_recorded = 0, 0
     try:
         kinds, tokstr = load_kinds()
     except Exception as e:  # noqa
@@ -1430,44 +1453,44 @@ def run(ck):
     cfg = Cfg()
     main = [gen_case(rng, cfg, H) for _ in range(n_main)]
     for k in range(0, len(main), 4000):
-        if ck.violations:
+        if not go_on(X):
             break
         examine(X, main[k:k + 4000], "macro-sets", asan=200 if quick else 1000)
     ck.sample({"macro set": main[3][:600]})
     # 2b. object-like macro sets: the class of the strongest proved equivalence
-    if not ck.violations:
+    if go_on(X):
         cfg_o = Cfg(obj_only=True)
         examine(X, [gen_case(rng, cfg_o, H) for _ in range(150 if quick else 1200)], "object-like-macro-sets",
                 asan=40 if quick else 300)
     # 2c. simple function-like sets: the class of CprocVerif.C12.function_like_correct_init (own generator state:
     #     the other streams are what they were before this one was added)
-    if not ck.violations:
+    if go_on(X):
         import random
         rng_s = random.Random("c12-simple-%r" % (rng.getstate()[1][0],))
         simple = [gen_simple(rng_s, H) for _ in range(150 if quick else 1200)]
         examine(X, simple, "simple-function-like-sets", asan=40 if quick else 300)
         ck.sample({"simple function-like set": simple[0][:600]})
-    # 3. redefinitions
-    if not ck.violations:
-        red = [gen_redef(rng, H) for _ in range(200 if quick else 2500)]
-        examine(X, [t for t, _ in red], "redefinitions", asan=60 if quick else 500)
-        ck.sample({"redefinition": red[0][0]})
-    # 3b. redefinition of a macro that has been expanded (own generator state, as for 2c)
-    if not ck.violations:
+    # 2d. redefinition of a macro that has been expanded (own generator state, as for 2c)
+    if go_on(X):
         import random
         rng_r = random.Random("c12-reuse-%r" % (rng.getstate()[1][0],))
         reuse = [gen_reuse(rng_r, H) for _ in range(150 if quick else 1500)]
         examine(X, reuse, "redefine-after-use", asan=40 if quick else 300)
         ck.sample({"redefinition after use": reuse[0][:600]})
+    # 3. redefinitions
+    if go_on(X):
+        red = [gen_redef(rng, H) for _ in range(200 if quick else 2500)]
+        examine(X, [t for t, _ in red], "redefinitions", asan=60 if quick else 500)
+        ck.sample({"redefinition": red[0][0]})
     # 4. diagnostics
-    if not ck.violations:
+    if go_on(X):
         errs = [gen_error(rng, H) for _ in range(200 if quick else 1200)]
         examine(X, sorted(set(t for t, _ in errs)), "diagnostics")
         cfg_e = Cfg(errors=0.2)
         examine(X, [gen_case(rng, cfg_e, H) for _ in range(120 if quick else 1500)], "macro-sets-with-wrong-argument-counts",
                 asan=60 if quick else 500)
     # 5. known findings, on purpose
-    if not ck.violations:
+    if go_on(X):
         for fid, ts in KNOWN_STREAM.items():
             examine(X, ts, "known:" + fid, expect=[fid])
         cfg_k = Cfg(str_and_tok=True, unbalanced=True)
@@ -1475,29 +1498,31 @@ def run(ck):
                 asan=60 if quick else 500)
     # 6. valid programs: K-A and K-B
     progs = []
-    if not ck.violations:
+    if go_on(X):
         progs = [gen_program(rng, H) for _ in range(100 if quick else 1200)]
         examine(X, progs, "valid-programs", asan=50 if quick else 300)
         ck.sample({"valid program": progs[0][:900]})
-    if not ck.violations:
+    if go_on(X):
         import time
         t0 = time.time()
         X.ninputs["K-B programs whose expanded text cproc-qbe rejects"] = run_kb(X, progs)
         X.secs["K-B"] = round(time.time() - t0, 1)
     # 7. the reference itself against gcc and clang
-    if not ck.violations:
+    if go_on(X):
         vt = main[:400 if quick else 2500] + [t for t, _ in (red[:100 if quick else 600])] + \
             sorted(set(t for t, _ in errs)) + progs[:60 if quick else 300]
         t0 = time.time()
         validate_spec(X, vt, "gen")
         X.secs["validate_spec"] = round(time.time() - t0, 1)
     ck.cov["input_distribution"] = dict(sorted(H.items()))
+    if X.nofail_seen:
+        X.ninputs["units on which code and model differ while the code agrees with the reference"] = X.nofail_seen
     ck.cov["inputs_per_set"] = X.ninputs
     ck.cov["seconds_per_stage"] = X.secs
     n_units = max(1, X.tclass.get("units", 0))
     n_tot = X.tclass.get("object-like-total", 0)
     n_obj = n_tot + X.tclass.get("object-like", 0)
-    n_wf, n_wo = X.tclass.get("whole:F", 0), X.tclass.get("whole:O", 0)
+    n_wf, n_wo, n_wp = X.tclass.get("whole:F", 0), X.tclass.get("whole:O", 0), X.tclass.get("whole:P", 0)
     n_any = n_obj + X.tclass.get("whole-only", 0)
     ck.cov["theorem_class_coverage"] = {
         "generated_units": X.tclass.get("units", 0),
@@ -1506,11 +1531,13 @@ def run(ck):
         "function_like_correct_init, table with function-like macros (tblOKb/textOKb evaluated by the driver "
         "on the table the model builds from the leading directives)": n_wf,
         "function_like_correct_init, object-like table": n_wo,
+        "function_like_args_correct_init only (arguments that name object-like macros: complete replacement "
+        "before substitution; textPb evaluated by the driver)": n_wp,
         "some whole-stream theorem": n_any,
         "fraction_total": round(n_tot / n_units, 4), "fraction_object_like": round(n_obj / n_units, 4),
-        "fraction_function_like_whole_stream": round(n_wf / n_units, 4),
+        "fraction_function_like_whole_stream": round((n_wf + n_wp) / n_units, 4),
         "fraction_some_whole_stream_theorem": round(n_any / n_units, 4),
-        "note": "the other units with function-like macros (macro names inside arguments, `#`, `...`, empty "
+        "note": "the other units with function-like macros (invocations inside arguments, `#`, `...`, empty "
                 "arguments or replacement lists, directives after the first text line, names of function-like "
                 "macros inside replacement lists) are covered by the component theorems (define_*, macroequal_*, "
                 "split_args_correct, expandfunc_is_collect, ctxnext_delivers_flat, lazy_substitution_correct, "
